@@ -13,9 +13,17 @@ cmake -G Ninja -S . -B _build -DCMAKE_BUILD_TYPE=RelWithDebInfo > "$W/cmake.log"
 ( cd _build && ctest -j1 --timeout 900 > "$W/ctest.log" 2>&1 ); T=$?
 PASSED=$(grep -c "Passed" "$W/ctest.log")
 [ $T -eq 0 ] || { echo "REJECTED $D suite fails with patch: $(grep -E 'Failed|tests passed' $W/ctest.log | head -3 | tr '\n' ' ')"; exit 1; }
-g++ -std=c++11 -I"$W/src/include" -I"$W/src/_build/include" -I/usr/include/hdf5/serial "$D/demo.cpp" -L"$W/src/_build" -lnixio -Wl,-rpath,"$W/src/_build" -L/usr/lib/x86_64-linux-gnu/hdf5/serial -lhdf5 -o "$W/demo_p" > "$W/demo_build.log" 2>&1 || { echo "REJECTED $D demo does not compile (patched): $(tail -3 $W/demo_build.log | tr '\n' ' ')"; exit 1; }
+DEMOLIB="$W/src/_build"; SANF=""
+if [ "${SAN:-0}" = 1 ]; then
+  # the demo observes undefined behaviour as a sanitizer report: link it against a sanitizer build of the same tree
+  SANF="-fsanitize=address,undefined -g"
+  cmake -G Ninja -S . -B _build_san -DCMAKE_BUILD_TYPE=San -DCMAKE_CXX_FLAGS_SAN="-O1 -g -fsanitize=address,undefined" -DCMAKE_SHARED_LINKER_FLAGS_SAN="-fsanitize=address,undefined" -DCMAKE_EXE_LINKER_FLAGS_SAN="-fsanitize=address,undefined" -DBUILD_TESTING=OFF > "$W/cmake_san.log" 2>&1 && cmake --build _build_san > "$W/build_san.log" 2>&1 || { echo "REJECTED $D sanitizer build failed"; exit 1; }
+  DEMOLIB="$W/src/_build_san"
+fi
+g++ -std=c++11 $SANF -I"$W/src/include" -I"$W/src/_build/include" -I/usr/include/hdf5/serial "$D/demo.cpp" -L"$DEMOLIB" -lnixio -Wl,-rpath,"$DEMOLIB" -L/usr/lib/x86_64-linux-gnu/hdf5/serial -lhdf5 -o "$W/demo_p" > "$W/demo_build.log" 2>&1 || { echo "REJECTED $D demo does not compile (patched): $(tail -3 $W/demo_build.log | tr '\n' ' ')"; exit 1; }
 ( cd "$W" && timeout 600 ./demo_p > "$W/demo_p.log" 2>&1 ); RP=$?
 git checkout -q -- . && cmake --build _build > "$W/build2.log" 2>&1 || { echo "REJECTED $D unpatched rebuild failed"; exit 1; }
-g++ -std=c++11 -I"$W/src/include" -I"$W/src/_build/include" -I/usr/include/hdf5/serial "$D/demo.cpp" -L"$W/src/_build" -lnixio -Wl,-rpath,"$W/src/_build" -L/usr/lib/x86_64-linux-gnu/hdf5/serial -lhdf5 -o "$W/demo_u" > "$W/demo_build2.log" 2>&1 || { echo "REJECTED $D demo does not compile (unpatched)"; exit 1; }
+if [ "${SAN:-0}" = 1 ]; then cmake --build _build_san > "$W/build_san2.log" 2>&1 || { echo "REJECTED $D unpatched sanitizer rebuild failed"; exit 1; }; fi
+g++ -std=c++11 $SANF -I"$W/src/include" -I"$W/src/_build/include" -I/usr/include/hdf5/serial "$D/demo.cpp" -L"$DEMOLIB" -lnixio -Wl,-rpath,"$DEMOLIB" -L/usr/lib/x86_64-linux-gnu/hdf5/serial -lhdf5 -o "$W/demo_u" > "$W/demo_build2.log" 2>&1 || { echo "REJECTED $D demo does not compile (unpatched)"; exit 1; }
 ( cd "$W" && timeout 600 ./demo_u > "$W/demo_u.log" 2>&1 ); RU=$?
 if [ $RP -ne 0 ] && [ $RU -eq 0 ]; then echo "CONFIRMED $D suite=${PASSED}/31 demo_patched_exit=$RP demo_unpatched_exit=$RU"; else echo "REJECTED $D demo_patched_exit=$RP demo_unpatched_exit=$RU"; exit 1; fi
